@@ -269,3 +269,26 @@ Lemma leader_keeps_leaks :
   let s := fold_left (l_act_leader_keeps 0) [LGo 0; LGo 0; LEdit 0 [42%N]; LGo 1; LGo 1] (l_init (mkMsg 99 [7%N]) [1%N; 2%N]) in
   nth_error (l_waiters s) 1 = Some (2%N, G2 1) /\ nth_error (l_heap s) 1 = Some (mkMsg 2 [7%N; 42%N]).
 Proof. vm_compute. split; reflexivity. Qed.
+
+(* ------------------------------------------------------------------ slab cache: the shard sweep *)
+Open Scope N_scope.
+(* slabCache.get(shard): for i := 0; i < slabShardCount; i++ { c.shards[(shard+i)&(slabShardCount-1)].pop() } —
+   the sweep visits EVERY shard, whatever the hint: an idle slab anywhere is found before get gives up *)
+Lemma shard_sweep_covers : forall shard k, k < slab_shard_count ->
+  exists i, i < slab_shard_count /\ N.land (shard + i) (slab_shard_count - 1) = k.
+Proof.
+  intros shard k Hk. unfold slab_shard_count in *.
+  exists ((k + 16 - shard mod 16) mod 16). split.
+  - apply N.mod_lt. discriminate.
+  - change (16 - 1) with (N.ones 4). rewrite N.land_ones. change (2 ^ 4) with 16.
+    pose proof (N.mod_lt shard 16 ltac:(discriminate)) as Hs.
+    rewrite N.add_mod_idemp_r by discriminate.
+    pose proof (N.div_mod' shard 16) as Hd.
+    replace (shard + (k + 16 - shard mod 16)) with (k + (shard / 16 + 1) * 16) by lia.
+    rewrite N.mod_add by discriminate. apply N.mod_small. exact Hk.
+Qed.
+(* ... and never leaves the array *)
+Lemma shard_index_in_range : forall shard i, N.land (shard + i) (slab_shard_count - 1) < slab_shard_count.
+Proof.
+  intros. unfold slab_shard_count. change (16 - 1) with (N.ones 4). rewrite N.land_ones. apply N.mod_lt. discriminate.
+Qed.
